@@ -56,7 +56,7 @@ def main():
     else:
         for x in a:
             p, n = x.split("/")
-            jobs.append((p, n))
+            jobs.append((p, n))   # n may be "<n>@<other property>" : evaluate the change of p with the check of another property
     import queue
     slots = queue.Queue()
     for s in range(j):
@@ -64,7 +64,8 @@ def main():
     def run(pn):
         s = slots.get()
         try:
-            return job(s, pn[0], pn[1], [pn[0]])
+            n, _, other = pn[1].partition("@")
+            return job(s, pn[0], n, [other or pn[0]])
         except Exception as e:
             return pn[0], pn[1], {"error": str(e)}
         finally:
